@@ -921,6 +921,7 @@ func (r *FnRun) execRange(st *State, x *ssa.Range) *V {
 	it := st.allocRef()
 	st.heap["iter#visited"] = r.rowReset(st, "iter#visited", it, "Bool", "false")
 	st.writeLeaf("iter#map", []string{it}, "Int", base.S)
+	st.writeLeaf("iter#count", []string{it}, "Int", "0")
 	v := vInt(it, x.Type())
 	v.Prov = "maprange"
 	v.L2 = r.goMapHandle(base, x.X.Type())
@@ -946,6 +947,9 @@ func (r *FnRun) execNext(st *State, fr *frame, b *ssa.BasicBlock, i int, x *ssa.
 	if sEq(h.ref, "0") != "true" {
 		s1.assume("(forall ((" + q + " Int)) (! (=> (select " + dom(s1) + " " + q + ") (select " + visited(s1) + " " + q + ")) :pattern ((select " + dom(s1) + " " + q + "))))")
 	}
+	// every key is produced exactly once: when the iteration ends, as many keys were produced as the map holds
+	card := sIte(sEq(h.ref, "0"), "0", sSel(s1.comp(h.fam+"#card", 1, "Int"), h.ref))
+	s1.assume(sEq(sSel(s1.comp("iter#count", 1, "Int"), it), card))
 	s1.regs[x] = &V{K: KTuple, T: x.Type(), F: []*V{vBool("false"), s1.zero(tt.At(1).Type()), s1.zero(tt.At(2).Type())}}
 	s1.trail = append(s1.trail, "range-done")
 	r.exec(s1, fr, b, i+1)
@@ -954,6 +958,11 @@ func (r *FnRun) execNext(st *State, fr *frame, b *ssa.BasicBlock, i int, x *ssa.
 	k := r.fresh("rangekey", "Int")
 	s2.assume(sAnd(sNot(sEq(h.ref, "0")), sSel(dom(s2), k), sNot(sSel(visited(s2), k))))
 	s2.writeLeaf("iter#visited", []string{it, k}, "Bool", "true")
+	{
+		cnt := sSel(s2.comp("iter#count", 1, "Int"), it)
+		s2.assume(sAnd("(>= "+cnt+" 0)", "(< "+cnt+" "+sSel(s2.comp(h.fam+"#card", 1, "Int"), h.ref)+")"))
+		s2.writeLeaf("iter#count", []string{it}, "Int", "(+ "+cnt+" 1)")
+	}
 	kv := s2.zero(tt.At(1).Type())
 	if tt.At(1).Type() != types.Typ[types.Invalid] {
 		switch r.eng.shape(h.kt) {
